@@ -43,6 +43,10 @@ def build_tree(d):
     # a directory link whose target is an ancestor *above* the scanned root: with -L the files next to the root become reachable
     w(os.path.join(base, "other", "b.bin"), 20)
     os.symlink(base, os.path.join(root, "d1", "d2", "up"))
+    # an absolute link target that is not canonical (it runs through another directory link): the target is scanned directly as well,
+    # so its files must be listed once, under their canonical paths
+    os.symlink(os.path.join(root, "d1", "d2"), os.path.join(out, "alias"))
+    os.symlink(os.path.join(out, "alias", "d3"), os.path.join(root, "d1", "d2", "zz_abs"))     # same nesting level as its target
     return root
 
 
